@@ -153,7 +153,7 @@ fn c03_t3(rep: &mut crate::run::Reporter, stats: &mut crate::run::Stats, tier: c
 pub static C01: E1Prop = E1Prop {
     id: "C01",
     oracle: |c, o, _| oracle::c01(c, o),
-    rule: "T0: every pinned corpus file x 25 catalogue configurations; T2: a passing corpus pair with 1-3 comments inserted at statement level (own line before a statement, end of line after a statement); T1: grammar-generated programs (all six syntaxes, statement-level comments, random configuration, optional range, optional require sorting). Oracle: output re-parses with full_moon under the same syntax and the checker's lexer accepts it. Non-trivial: output differs from input and the input has >= 6 code tokens; distinct by hash of (source, config, range).",
+    rule: "T0: every pinned corpus file x 25 catalogue configurations; T2: a passing corpus pair with 1-3 comments inserted at statement level (own line before a statement, end of line after a statement); T1: grammar-generated programs (all six syntaxes, statement-level comments, random configuration, optional range, optional require sorting). T3: one block / multi-line block / own-line comment inserted into a gap between two code tokens of a generated comment-free program or a corpus file, only in roles (form, bracket context, last structural keyword, neighbouring token classes) of the calibrated allow list domain/t3roles.allow. Oracle: output re-parses with full_moon under the same syntax and the checker's lexer accepts it. Non-trivial: output differs from input and the input has >= 6 code tokens; distinct by hash of (source, config, range).",
     gen_case: gen_c01,
     quick_cases: 200_000,
     thorough_cases: 2_000_000,
@@ -169,7 +169,7 @@ pub static C01: E1Prop = E1Prop {
 pub static C02: E1Prop = E1Prop {
     id: "C02",
     oracle: |c, o, _| oracle::c02(c, o),
-    rule: "T0 + T2 + T1 as C01 with sort_requires off. Oracle: semantic normal form N (own walk over full_moon's tree: parentheses, semicolons, separators, quote/escape/number spelling and call sugar erased, truncating parentheses kept) and semantic token sequence T (own lexer) are equal for input and output. Non-trivial: output differs and the input contains a redundant parenthesis, semicolon, escape / single-quoted string, leading-dot number or call sugar.",
+    rule: "T0 + T2 + T1 + T3 as C01 with sort_requires off. Oracle: semantic normal form N (own walk over full_moon's tree: parentheses, semicolons, separators, quote/escape/number spelling and call sugar erased, truncating parentheses kept) and semantic token sequence T (own lexer) are equal for input and output. Non-trivial: output differs and the input contains a redundant parenthesis, semicolon, escape / single-quoted string, leading-dot number or call sugar.",
     gen_case: gen_c02,
     quick_cases: 60_000,
     thorough_cases: 2_000_000,
@@ -185,7 +185,7 @@ pub static C02: E1Prop = E1Prop {
 pub static C03: E1Prop = E1Prop {
     id: "C03",
     oracle: |c, o, _| oracle::c03(c, o),
-    rule: "T0 + T2 (corpus pairs with inserted statement-level comments) + T1 (programs with comments in whitelisted statement-level roles, after block openers, shebang, all comment forms). Oracle: multiset of comments (own lexer; line comments right-trimmed, CRLF->LF inside block comments) is unchanged and the code token sequence T is unchanged. Non-trivial: at least one comment and output differs from input.",
+    rule: "T0 + T2 (corpus pairs with inserted statement-level comments) + T1 (programs with comments in whitelisted statement-level roles, after block openers, shebang, all comment forms) + T3 (a comment in a token gap inside a statement, roles of the calibrated allow list). Oracle: multiset of comments (own lexer; line comments right-trimmed, CRLF->LF inside block comments) is unchanged and the code token sequence T is unchanged. Non-trivial: at least one comment and output differs from input.",
     gen_case: gen_c03,
     quick_cases: 200_000,
     thorough_cases: 2_000_000,
@@ -792,7 +792,7 @@ pub static C07: E1Prop = E1Prop {
         }
         v
     },
-    rule: "T0 (corpus x catalogue incl. width 1 and usize::MAX) + T1: generated valid programs under extreme widths, every range form (any order, empty, out of bounds, open), verify mode on/off, ignore directives; invalid inputs by truncation / splicing / slice deletion of generated programs and by cutting at a line start and appending an incomplete construct (16 tails, some of which full_moon accepts by dropping tokens); + scaling families P(d) for every recursive construct. Oracle: no panic; Ok exactly when the trusted parser accepts the input, ParseError exactly when it rejects it; formatter ticks (deterministic node-visit counter, hook H1) <= max(10^6, 5000 x input bytes); for families the tick growth ratio ticks(d+1)/ticks(d) over the top third of depths stays below 1.6. Non-trivial: every evaluated case (each one exercises the totality claim).",
+    rule: "T0 (corpus x catalogue incl. width 1 and usize::MAX) + T1: generated valid programs under extreme widths, every range form (any order, empty, out of bounds, open), verify mode on/off, ignore directives; invalid inputs by truncation / splicing / slice deletion of generated programs and by cutting at a line start and appending an incomplete construct (16 tails, some of which full_moon accepts by dropping tokens); + scaling families P(d) for every recursive construct. Oracle: no panic; Ok exactly when the trusted parser accepts the input, ParseError exactly when it rejects it; formatter ticks (deterministic node-visit counter, hook H1) <= max(10^6, 5000 x input bytes); for families the tick growth ratio ticks(d+1)/ticks(d) over the top third of depths stays below 1.6. Non-trivial: every evaluated case (each one exercises the totality claim). T3 (all roles, no allow list): a block / line / own-line / multi-line block comment in any gap between two code tokens of a generated program or a corpus file must not make the formatter panic or exceed the work budget.",
     gen_case: gen_c07,
     quick_cases: 400_000,
     thorough_cases: 4_000_000,
